@@ -84,22 +84,28 @@ Fixpoint h_str (s : string) (acc : N) : N :=
   end.
 
 Definition alpha : list ascii := ["1"; "2"; "-"; "#"; "("; ")"; ":"; " "; "."]%char.
+Definition alpha3 : list ascii := ["1"; "2"; "3"; "-"; "#"; "("; ")"; ":"; " "; "."]%char.
 
-(* all strings of length exactly n *)
-Fixpoint strings_len (n : nat) : list string :=
+(* all strings of length exactly n over the alphabet al *)
+Fixpoint strings_len (al : list ascii) (n : nat) : list string :=
   match n with
   | O => [EmptyString]
-  | S k => flat_map (fun s => map (fun c => String c s) alpha) (strings_len k)
+  | S k => flat_map (fun s => map (fun c => String c s) al) (strings_len al k)
   end.
 
-(* (accepted, weighted hash) over prefix ++ s for all s of length <= n *)
 Definition fp_step (acc : N * N) (s : string) : N * N :=
   let r := get_ast s in
   (match r with Ok _ => fst acc + 1 | Err _ => fst acc end,
    (snd acc + h_str s 7 * h_res r) mod fpP).
 
-Fixpoint fp_upto (prefix : string) (n : nat) (acc : N * N) : N * N :=
-  let acc' := fold_left (fun a s => fp_step a (prefix ++ s)%string) (strings_len n) acc in
-  match n with O => acc' | S k => fp_upto prefix k acc' end.
+(* (accepted, weighted hash) over prefix ++ s for all s of length exactly n *)
+Definition fp_exact (al : list ascii) (prefix : string) (n : nat) (acc : N * N) : N * N :=
+  fold_left (fun a s => fp_step a (prefix ++ s)%string) (strings_len al n) acc.
 
-Definition bucket_fp (prefix : string) (n : nat) : N * N := fp_upto prefix n (0, 0).
+(* ... for all s of length <= n *)
+Fixpoint fp_upto (al : list ascii) (prefix : string) (n : nat) (acc : N * N) : N * N :=
+  let acc' := fp_exact al prefix n acc in
+  match n with O => acc' | S k => fp_upto al prefix k acc' end.
+
+Definition bucket_fp (al : list ascii) (prefix : string) (n : nat) : N * N := fp_upto al prefix n (0, 0).
+Definition bucket_fp_exact (al : list ascii) (prefix : string) (n : nat) : N * N := fp_exact al prefix n (0, 0).
